@@ -5,7 +5,7 @@ from mc.explore import Result
 PROPERTY = "C01"
 CLAUSES = ["C01.mono", "C01.due", "C01.order", "C01.neg", "C01.noraise"]
 RULE = ("every process program of <= D executed instructions over {return, timeout(0|1|2|0.5), wait/succeed a shared "
-        "event, join, interrupt, spawn, timeout(-1)} with 2 initial and <= 4 processes, run to exhaustion or through "
+        "event, join, interrupt, spawn, raise, timeout(-1)} with 2 initial and <= 4 processes, run to exhaustion or through "
         "run(until=1|2); non-trivial = two occurrences were pending for the same instant when one of them took effect; "
         "distinct = distinct observation logs")
 ASSUMPTIONS = [
@@ -13,7 +13,7 @@ ASSUMPTIONS = [
     "(process start), Interrupt received (interrupt), return of run(until=t) (numeric stop)",
     "a pending interrupt whose victim has terminated is discarded silently (the statement's rule)",
 ]
-OPS = ["ret", ("T", 0), ("T", 1), ("T", 2), ("T", 0.5), ("W", 0, True), ("S", 0), ("J", True), "I", "Sp", "Tneg"]
+OPS = ["ret", ("T", 0), ("T", 1), ("T", 2), ("T", 0.5), ("W", 0, True), ("S", 0), ("J", True), "I", "Sp", "Tneg", "raise"]
 MAP = {"mono": "C01.mono", "due": "C01.due", "order": "C01.order", "neg": "C01.neg", "noraise": "C01.noraise"}
 
 
@@ -30,7 +30,8 @@ def execute(ch, cfg):
     res = Result()
     res.digest = k.digest()
     res.ev("C01.noraise")
-    if k.crashed is not None:
+    if k.crashed is not None and k.crashed[1] != "Err":
+        # (a process that raises without anybody joining it ends the run with Err: that is C02's rule, not a defect)
         res.bad("C01.noraise", "run-raised-%s" % k.crashed[1], repr(k.crashed[:3]))
     viol, nt = KC.check_agenda(k)
     res.nontrivial = nt
